@@ -5,7 +5,12 @@
    Schedule(j): for each of the three directories (input, output, tmp) take the directory pinned by the
    binding, or a FRESH name under the target's workdir (`random_name()` is modelled as a choice among the
    names not handed out yet -- that is the assumption the code relies on), `mkdir -p` it on every allocated
-   location, resolve it, register it as available there.                                            *)
+   location, resolve it, register it as available there.
+
+   Lose(l, d): directory d is lost on location l and the data manager is told so (`invalidate_location`, what
+   FileToken.is_available does when a path has gone): it neither exists nor is registered there any more.  A step
+   scheduled again afterwards (rollback, a new run in the same context) must get existing, REGISTERED directories
+   again -- with a directory pinned by the binding that is the same path on the same location.          *)
 EXTENDS Naturals, FiniteSets, Sequences, TLC
 
 CONSTANTS Jobs,      \* set of job names
@@ -16,11 +21,12 @@ CONSTANTS Jobs,      \* set of job names
 VARIABLES dirs,      \* dirs[j] : <<in, out, tmp>> once scheduled, <<>> before
           used,      \* directories handed out so far (unpinned ones)
           fs,        \* fs : set of <<location, directory>> that exist
-          reg        \* reg : set of <<location, directory>> registered as available in the data manager
-vars == <<dirs, used, fs, reg>>
+          reg,       \* reg : set of <<location, directory>> registered as available in the data manager
+          live       \* jobs none of whose directories has been lost since they were scheduled
+vars == <<dirs, used, fs, reg, live>>
 
 AllLocs == UNION {LocsOf[j] : j \in Jobs}
-Init == dirs = [j \in Jobs |-> <<>>] /\ used = {} /\ fs = {} /\ reg = {}
+Init == dirs = [j \in Jobs |-> <<>>] /\ used = {} /\ fs = {} /\ reg = {} /\ live = {}
 
 Fresh(d, k, j) == IF Pinned[j][k] # "" THEN d = Pinned[j][k] ELSE d \notin used
 Schedule(j, d) ==       \* d = <<din, dout, dtmp>>
@@ -31,14 +37,22 @@ Schedule(j, d) ==       \* d = <<din, dout, dtmp>>
   /\ used' = used \cup {d[k] : k \in {x \in 1..3 : Pinned[j][x] = ""}}
   /\ fs' = fs \cup {<<l, d[k]>> : l \in LocsOf[j], k \in 1..3}
   /\ reg' = reg \cup {<<l, d[k]>> : l \in LocsOf[j], k \in 1..3}
-Next == \E j \in Jobs, d \in Dirs \X Dirs \X Dirs : Schedule(j, d)
+  /\ live' = live \cup {j}
+Lose(l, d) ==
+  /\ <<l, d>> \in fs
+  /\ fs' = fs \ {<<l, d>>}
+  /\ reg' = reg \ {<<l, d>>}
+  /\ live' = {j \in live : ~(l \in LocsOf[j] /\ \E k \in 1..3 : dirs[j][k] = d)}
+  /\ UNCHANGED <<dirs, used>>
+Next == \/ \E j \in Jobs, d \in Dirs \X Dirs \X Dirs : Schedule(j, d)
+        \/ \E l \in AllLocs, d \in Dirs : Lose(l, d)
 Spec == Init /\ [][Next]_vars
 
 Scheduled == {j \in Jobs : dirs[j] # <<>>}
-\* I1: the three directories exist on each allocated location
-DirsExist == \A j \in Scheduled : \A l \in LocsOf[j], k \in 1..3 : <<l, dirs[j][k]>> \in fs
+\* I1: the three directories exist on each allocated location (until one of them is lost)
+DirsExist == \A j \in live : \A l \in LocsOf[j], k \in 1..3 : <<l, dirs[j][k]>> \in fs
 \* I2: each is registered as available there
-DirsRegistered == \A j \in Scheduled : \A l \in LocsOf[j], k \in 1..3 : <<l, dirs[j][k]>> \in reg
+DirsRegistered == \A j \in live : \A l \in LocsOf[j], k \in 1..3 : <<l, dirs[j][k]>> \in reg
 \* I3: directories not fixed by the binding are pairwise different across jobs and within a job
 DirsDistinct == \A j1, j2 \in Scheduled : \A k1, k2 \in 1..3 :
                   (Pinned[j1][k1] = "" /\ Pinned[j2][k2] = "" /\ <<j1, k1>> # <<j2, k2>>) => dirs[j1][k1] # dirs[j2][k2]
